@@ -87,6 +87,15 @@ impl<'a> GeneratorState<'a> {
         pos: usize,
         high_byte: bool,
     ) -> Result<bool, Error> {
+        // A location the generator addresses by name (ROM_SELECT for the 3E and SuperGame
+        // bankswitching schemes) is not necessarily declared
+        if let ExprType::Absolute(v, _, _) | ExprType::AbsoluteX(v) | ExprType::AbsoluteY(v) = operand {
+            if !self.compiler_state.variables.contains_key(v.as_str()) {
+                return Err(self
+                    .compiler_state
+                    .syntax_error(&format!("Unknown variable {}", v), pos));
+            }
+        }
         let dasm_operand: String;
         let signed;
         let nb_bytes;
